@@ -1,6 +1,7 @@
 package c11
 
 import (
+	"fmt"
 	"go/ast"
 	"go/parser"
 	"go/token"
@@ -18,7 +19,8 @@ import (
 // EntryCase reaches the decorator through its other entry points: the only way from the returned
 // dst tree back to the ast is then the Decorator's own maps.
 type EntryCase struct {
-	Entry    string `json:"entry"` // parse | parsefile-broken | package
+	Entry    string `json:"entry"`          // parse | parsefile-broken | package | node
+	Node     int    `json:"node,omitempty"` // with entry node: ordinal of the isolated declaration / statement / expression / spec handed to DecorateNode
 	Src      string `json:"src"`
 	Src2     string `json:"src2,omitempty"`
 	Resolver bool   `json:"resolver"`
@@ -72,6 +74,38 @@ func checkEntries(t h.TB, c EntryCase) {
 		if dec.Filenames[df] != "x.go" {
 			h.Fail(t, sub, c, "%s: Filenames[file] = %q, want x.go", c.Entry, dec.Filenames[df])
 		}
+	case "node":
+		af, err := parser.ParseFile(fset, "x.go", c.Src, parser.ParseComments)
+		if err != nil {
+			t.Fatalf("harness: %v", err)
+		}
+		var cands []ast.Node
+		ast.Inspect(af, func(n ast.Node) bool {
+			switch n.(type) {
+			case *ast.Ident:
+				// a bare identifier has no context to resolve it in: with a Resolver the decorator
+				// refuses it by an assertion (not a documented use)
+			case ast.Expr, ast.Stmt, ast.Decl, ast.Spec, *ast.Field, *ast.FieldList:
+				cands = append(cands, n)
+			}
+			return true
+		})
+		if len(cands) == 0 {
+			return
+		}
+		root := cands[c.Node%len(cands)]
+		var node dst.Node
+		h.Guard(t, sub, c, func() { node, err = dec.DecorateNode(root) })
+		if err != nil {
+			if c.Resolver {
+				return // the syntax-based resolver cannot work without the file
+			}
+			h.Fail(t, sub, c, "DecorateNode(%T): %v", root, err)
+		}
+		if dec.Dst.Nodes[root] != node {
+			h.Fail(t, sub, c, "node: Dst.Nodes[root] is not the node DecorateNode returned for %T", root)
+		}
+		laws(t, sub, lc, fmt.Sprintf("decorator (isolated %T)", root), root, node, dec.Dst.Nodes, dec.Ast.Nodes)
 	case "package":
 		pkg := &ast.Package{Name: "p", Files: map[string]*ast.File{}}
 		for n, s := range map[string]string{"x.go": c.Src, "y.go": c.Src2} {
@@ -120,7 +154,7 @@ func genEntries(t *rapid.T) (EntryCase, bool) {
 	const sub = "Entries"
 	raw, _ := gen.SynFile(t, rapid.IntRange(10, 120).Draw(t, "size"))
 	src, _ := gen.Inject(t, []byte(raw), gen.LayoutOpts{Max: 4})
-	c := EntryCase{Entry: []string{"parse", "parsefile-broken", "package"}[rapid.IntRange(0, 2).Draw(t, "entry")], Src: string(src), Resolver: rapid.IntRange(0, 3).Draw(t, "resolver") == 0}
+	c := EntryCase{Entry: []string{"parse", "parsefile-broken", "package", "node"}[rapid.IntRange(0, 3).Draw(t, "entry")], Src: string(src), Resolver: rapid.IntRange(0, 3).Draw(t, "resolver") == 0}
 	switch c.Entry {
 	case "parsefile-broken":
 		mut, _ := gen.Mutate(t, src)
@@ -130,11 +164,13 @@ func genEntries(t *rapid.T) (EntryCase, bool) {
 			return c, false
 		}
 		c.Src = string(mut)
+	case "node":
+		c.Node = rapid.IntRange(0, 3000).Draw(t, "node")
 	case "package":
 		c.Src2, _ = gen.SynFile(t, rapid.IntRange(10, 80).Draw(t, "size2"))
 	}
 	h.Label("entry:" + c.Entry)
-	h.NonTrivial(sub, c.Entry, c.Src, c.Src2)
+	h.NonTrivial(sub, c.Entry, c.Src, c.Src2, fmt.Sprint(c.Node))
 	h.Sample(sub, map[string]any{"entry": c.Entry, "resolver": c.Resolver, "src": h.Trunc(c.Src, 300)})
 	return c, true
 }
